@@ -251,7 +251,7 @@ class C04(Prop):
             "kind sequences of length<=3 x all delivery orders, random length 4; (D) grease on/off x stream credit uc=3/4 + "
             "gu<n> at every position x write credit wc=0/5/100 + gw at every position x STOP_SENDING on the grease stream; "
             "both roles; (D') stream errors (StreamTerminated, Unknown) injected at poll_open_send / send_data / poll_ready / "
-            "poll_finish of the grease stream at every position of (D); (E) engine `flt` (tools/props/faults.py): every "
+            "poll_finish of the grease stream (and poll_finish answering Pending once) at every position of (D); (E) engine `flt` (tools/props/faults.py): every "
             "transport call of the setup x every ConnectionErrorIncoming / StreamErrorIncoming variant, the same on the own "
             "control stream at shutdown, at poll_accept_recv / poll_accept_bidi / reads of the peer's control stream and of an "
             "untyped stream, on the grease stream, peer close/timeout at every position, a server-initiated bidi stream to a "
@@ -457,10 +457,11 @@ class C04(Prop):
                 ("g1,uc=3,wc=0", grants, [["gu1"], ["gu1", "gw%d:100" % gs], ["gw%d:100" % gs, "gu1"]]),
                 ("g0,wc=0", grants, [[]]),
                 # stream errors injected at each call of the grease stream (never a connection error, no frame lost)
-                ("g1", [], [["!%s:%s" % (site, e)] for site in ("ou3", "sd%d" % gs, "pr%d" % gs, "pf%d" % gs) for e in ("X7", "K")]),
+                ("g1", [], [["!%s:%s" % (site, e)] for site in ("ou3", "sd%d" % gs, "pr%d" % gs, "pf%d" % gs) for e in ("X7", "K")]
+                 + [["!pf%d:P" % gs], ["!pr%d:K" % gs, "!pf%d:P" % gs]]),
                 ("g1,uc=3", [], [["!ou3:K", "gu1"], ["gu1", "!pr%d:X9" % gs]]),
                 ("g1,wc=0", grants, [["!pr%d:K" % gs], ["gw%d:5" % gs, "!pr%d:X3" % gs], ["!pf%d:K" % gs, "gw%d:100" % gs],
-                                     ["!sd%d:X1" % gs]]),
+                                     ["!sd%d:X1" % gs], ["!pf%d:P" % gs, "gw%d:100" % gs]]),
                 ("g0", [], [["!ou3:K"], ["!pr%d:X7" % gs]]),
             ]
             for cfg, pre, extras in cfgs:
